@@ -15,11 +15,11 @@ func c18(c *core.Ctx) {
 	const tp = "chain/txpool"
 	la := lockAnalysis(c)
 
-	c.Clause("C18.1", "every access to the pool's and the replay guard's shared state holds their mutex for writing, on every path from every caller")
+	c.Clause("C18.1", "every access to the pool's and the replay guard's shared state holds their mutex (for writing where the access modifies the state, at least for reading otherwise), on every path from every caller")
 	c.Run("locks", func() {
-		n := lockDiscipline(c, la, tp+".TxPool", []string{"txs", "cap", "hashIndexMap"}, "txpool.TxPool.RW", true)
+		n := lockDiscipline(c, la, tp+".TxPool", []string{"txs", "cap", "hashIndexMap"}, "txpool.TxPool.RW", false)
 		c.Floor("TxPool/functions-with-accesses", n, 6)
-		n = lockDiscipline(c, la, tp+".TxGuard", []string{"blockBuckets", "blockCache", "txTracer"}, "txpool.TxGuard.RW", true)
+		n = lockDiscipline(c, la, tp+".TxGuard", []string{"blockBuckets", "blockCache", "txTracer"}, "txpool.TxGuard.RW", false)
 		c.Floor("TxGuard/functions-with-accesses", n, 5)
 		r := noReentry(c, la, map[string]bool{tp: true})
 		c.Check("reentry/scan/"+tp, "lock-reentry", r > 0, token.NoPos, "%d functions of %s scanned for re-acquisition of a held mutex", r, tp)
